@@ -949,6 +949,8 @@ def effect(op, st, p, s, tr, tp, projected):
         ids = st["info"].get("ids")
         if ids is None:
             return "no ids"
+        if any(i < -n or i >= n for i in ids):
+            return f"an index outside [-{n}, {n}) was not refused"
         if k == "mf" and (not ids or ids[0] != 0):
             return "motion filter dropped the first pose"
         if s["num"] != len(ids):
@@ -1073,13 +1075,46 @@ def evaluate(ctx, cases):
     B = 400
     for i in range(0, len(cases), B):
         chunk = cases[i:i + B]
-        impls = [run_impl(c) for c in chunk]
-        idx = [j for j, im in enumerate(impls) if im["steps"]]
-        outs = core.run_driver([model_line(chunk[j], impls[j]) for j in idx], prop="C08") if idx else []
+        # an exception of the harness on one case (evo in a state the bookkeeping does not expect, e.g. an index list
+        # that should have been refused) is a finding about that case, never a tool error of the whole run
+        impls = []
+        for c in chunk:
+            try:
+                impls.append(run_impl(c))
+            except Exception as e:  # noqa: BLE001
+                impls.append(None)
+                ctx.fail(case_of(c), "object-unusable", f"applying the history / reading the views raised {type(e).__name__}: {str(e)[:120]}",
+                         {"op": "history"})
+        idx, lines = [], []
+        for j, im in enumerate(impls):
+            if im is None or not im["steps"]:
+                continue
+            try:
+                lines.append(model_line(chunk[j], im))
+                idx.append(j)
+            except Exception as e:  # noqa: BLE001
+                ctx.mismatch(case_of(chunk[j]), f"the history could not be encoded for the model: {type(e).__name__}: {str(e)[:120]}")
+        outs = core.run_driver(lines, prop="C08") if lines else []
         om = dict(zip(idx, outs))
         for j, c in enumerate(chunk):
-            oracle(ctx, c, impls[j])
-            judge(ctx, c, impls[j], om.get(j, ""))
+            if impls[j] is None:
+                continue
+            try:
+                oracle(ctx, c, impls[j])
+            except Exception as e:  # noqa: BLE001
+                ctx.fail(case_of(c), "oracle-exception", f"evaluating the property on evo's output raised {type(e).__name__}: "
+                         f"{str(e)[:120]} (evo is in a state the documented effects do not allow)", {"op": "oracle"})
+            try:
+                if impls[j]["steps"] and j in om:
+                    judge(ctx, c, impls[j], om[j])
+                elif not impls[j]["steps"]:
+                    judge(ctx, c, impls[j], "")
+            except Exception as e:  # noqa: BLE001
+                ctx.mismatch(case_of(c), f"comparison with the cache machine raised {type(e).__name__}: {str(e)[:120]}")
+
+
+def case_of(c):
+    return {k: c[k] for k in c if k not in ("corpus", "exhaustive", "sampled", "stream")}
 
 
 def shrink(case):
